@@ -222,6 +222,44 @@ _HIST_ASSUME = ["crash-free executions only (crashes are C02-C04)", "features: d
 PROPS["C01"] = drive_plan("exploration", "hist", ["--histories", 3, "--ops", 45], ["--histories", 60, "--ops", 70], assumptions=_HIST_ASSUME)
 PROPS["C06"] = drive_plan("exploration", "hist", ["--histories", 3, "--ops", 45], ["--histories", 60, "--ops", 70], assumptions=_HIST_ASSUME)
 PROPS["C07"] = drive_plan("exploration", "hist", ["--histories", 3, "--ops", 35], ["--histories", 50, "--ops", 60], assumptions=_HIST_ASSUME)
+PROPS["C15"] = drive_plan("exploration", "c15", ["--histories", 4, "--ops", 30], ["--histories", 80, "--ops", 50], assumptions=_HIST_ASSUME + [
+    "membership is required of Document-role frames only; other roles may appear but must respect the (timestamp, id) order"])
+
+
+PROPS["C13"] = drive_plan("exploration", "c13", ["--cases", 5, "--max-m", 150], ["--cases", 60, "--max-m", 600],
+                          assumptions=["default build only: the hnsw_bench configuration is approximate by design and C13 does not quantify over configurations",
+                                       "a closer omitted frame counts only beyond a relative 1e-5 (f32 rounding); ties are never ordered"])
+
+
+def _c14_hnsw(pid, tier, seed, scratch, bindir):
+    try:
+        bd = C.build(features="hnsw", bins=["mvdrive"], target_dir=os.path.join(C.HARNESS, "target-hnsw"))
+    except C.Inconclusive as e:
+        return [], [f"hnsw_bench build failed: {str(e)[-300:]}"]
+    sizes = ["30,1001"] if tier == "quick" else ["1,2,120", "999", "1000", "1001", "1200", "30,1000"]
+    reports, notes = [], []
+    from concurrent.futures import ThreadPoolExecutor
+
+    def one(i_s):
+        i, s = i_s
+        d = os.path.join(scratch, f"hnsw-{i}")
+        os.makedirs(d, exist_ok=True)
+        return C.run_monitor([os.path.join(bd, "mvdrive"), "c14", "--seed", str(seed * 1000 + 500 + i), "--sizes", s, "--scratch", d],
+                             os.path.join(scratch, f"hnsw-{i}.json"), 3400, cwd=d)
+    with ThreadPoolExecutor(max_workers=6) as ex:
+        for r, n in ex.map(one, list(enumerate(sizes))):
+            if r:
+                reports.append(r)
+            else:
+                notes.append(n)
+    return reports, notes
+
+
+PROPS["C14"] = drive_plan("exploration", "c14", ["--sizes", "1,2,30,120"], ["--sizes", "1,2,30,120,400,999,1000,1001"], quick_shards=8, custom=_c14_hnsw,
+                          assumptions=["two configurations: default build (exact index at every size) and hnsw_bench build (representation switch at 1000 vectors)",
+                                       "embeddings are unique per put, so a self-query must return its own frame at distance <= 1e-6"])
+
+
 def _c19_sidecar(pid, tier, seed, scratch, bindir):
     return C.run_sharded(os.path.join(bindir, "mvdrive"), "sidecar", ["--rounds", 2 if tier == "quick" else 20], 2 if tier == "quick" else 8, seed, scratch)
 
